@@ -57,7 +57,9 @@ func (s *Service) HandleHeadEvent(event *apiv1.Event) {
 		return
 	}
 
+	s.reorgMutex.Lock()
 	s.lastBlockRoot = data.Block
+	s.reorgMutex.Unlock()
 	epoch := s.chainTimeService.SlotToEpoch(data.Slot)
 
 	monitorBlockDelay(uint(uint64(data.Slot)%s.slotsPerEpoch), time.Since(s.chainTimeService.StartOfSlot(data.Slot)))
@@ -100,6 +102,9 @@ func (s *Service) checkEventForReorg(ctx context.Context,
 	currentDutyDependentRoot phase0.Root,
 ) {
 	var zeroRoot phase0.Root
+
+	s.reorgMutex.Lock()
+	defer s.reorgMutex.Unlock()
 
 	// Check to see if there is a reorganisation that requires re-fetching duties.
 	if s.lastBlockEpoch != 0 {
